@@ -22,6 +22,9 @@ from . import spshim
 from .term import RF, OutsideFragment
 
 NATIVE_TOL = 1e-6
+import mpmath
+MP = mpmath.mp.clone()
+MP.dps = 40
 
 
 class Obl:
@@ -126,6 +129,49 @@ class Env:
             h.setup_model = setup_model
             self.comps[key] = h
         return h
+
+    def call(self, fn, *args, **kw):
+        """call a real repository function: under the shim (sym) or natively"""
+        self.functions.add("%s.%s" % (fn.__module__, fn.__qualname__))
+        if self.sym:
+            with sx.patched():
+                return fn(*args, **kw)
+        return fn(*args, **kw)
+
+    def jac_of(self, y, x):
+        """sym only: dense d y / d x for arrays of terms y and bare variables x"""
+        y = np.asarray(y, dtype=object).reshape(-1)
+        x = np.asarray(x, dtype=object).reshape(-1)
+        ids = [S.var_id(v) for v in x]
+        D = np.empty((len(y), len(x)), dtype=object)
+        for i, yi in enumerate(y):
+            deps = S.term_deps(yi) if isinstance(yi, RF) else frozenset()
+            for j, a in enumerate(ids):
+                D[i, j] = S.diff(yi, a) if a in deps else RF({})
+        return D
+
+    def fd_jac(self, f, x):
+        """native only: Richardson central-difference Jacobian of f at x"""
+        x0 = np.asarray(x, dtype=float)
+        y0 = np.asarray(f(x0), dtype=float).reshape(-1)
+        D = np.zeros((y0.size, x0.size))
+        for j in range(x0.size):
+            h = 1e-4 * max(1.0, abs(x0.reshape(-1)[j]))
+            e = np.zeros(x0.size)
+            e[j] = 1.0
+            e = e.reshape(x0.shape)
+            g = lambda s: np.asarray(f(x0 + s * e), dtype=float).reshape(-1)
+            d1 = (g(h) - g(-h)) / (2 * h)
+            d2 = (g(h / 2) - g(-h / 2)) / h
+            D[:, j] = (4 * d2 - d1) / 3
+        return D
+
+    def deriv(self, f, x):
+        """d f(x) / d x as a dense matrix: engine differentiation of the real function's term (sym) or finite
+        differences of the real function (native)"""
+        if self.sym:
+            return self.jac_of(self.call(f, x), x)
+        return self.fd_jac(f, x)
 
     # ------------------------------------------------------------------ obligations
     def _new(self, prop, name, kind):
@@ -244,23 +290,16 @@ class Env:
             if isinstance(val, complex) or val != val:
                 continue
             if abs(val) > 1e-7 * max(sc, 1e-300) and abs(val) > 1e-12:
-                return named, float(val)
+                try:
+                    v2 = float(S.evalf(d, env, None, MP))
+                except (S.Undefined, ZeroDivisionError, ValueError):
+                    continue
+                if abs(v2) > 1e-9 * max(sc, 1e-300) and abs(v2) > 1e-14:
+                    return named, v2
         return None
 
     def _path_ok(self, env):
-        for c, taken in self.path_conds:
-            if not isinstance(c, S.SymBool):
-                continue
-            v = S.evalf(c.val, env)
-            if c.op == '==':
-                truth = abs(v) < 1e-12
-            elif c.op == '>':
-                truth = v > 0
-            else:
-                truth = v >= 0
-            if truth != taken:
-                return False
-        return True
+        return _taken_ok([(None, c, b) for c, b in self.path_conds], env)
 
     def nodep(self, prop, name, expr, prefix):
         """no entry of expr depends on a variable whose name starts with prefix (independence / frame obligation)"""
@@ -305,6 +344,20 @@ class Env:
 
     def note(self, s):
         self.notes.append(s)
+
+    def use_helpers(self, family):
+        """component-level proofs use the named helper family as opaque function atoms under their proved contracts"""
+        from . import helpers
+        if self.sym:
+            helpers.activate(getattr(helpers, family + "_stubs")())
+            self.assumptions.add("helper contracts of %s are used as opaque atoms (proved separately by the helper.* jobs)" % family)
+
+    def generic_position(self, on=True):
+        """exclude ties: distinct terms compare unequal (measure-zero coincidences are a stated exemption)"""
+        if self.sym:
+            S.GENERIC[0] = on
+            if on:
+                self.assumptions.add("generic position: exact ties between distinct symbolic values (arg-max ties) are excluded")
 
     # ------------------------------------------------------------------ path exploration
     def explore(self, fn):
@@ -552,12 +605,12 @@ def crosscheck(env, jb, kw, seed):
                 vals = {}
                 for n in h.in_names:
                     a = np.asarray(ins[n], dtype=object)
-                    vals[n] = np.array([S.evalf(x, ev, cache) if isinstance(x, RF) else float(x) for x in a.reshape(-1)],
+                    vals[n] = np.array([float(S.evalf(x, ev, cache, MP)) if isinstance(x, RF) else float(x) for x in a.reshape(-1)],
                                        dtype=float).reshape(h.shape[n])
                 symout = {}
                 for n in h.out_names:
                     a = np.asarray(outs[n], dtype=object)
-                    symout[n] = np.array([S.evalf(x, ev, cache) if isinstance(x, RF) else float(x) for x in a.reshape(-1)],
+                    symout[n] = np.array([float(S.evalf(x, ev, cache, MP)) if isinstance(x, RF) else float(x) for x in a.reshape(-1)],
                                          dtype=float).reshape(h.shape[n])
             except (S.Undefined, OverflowError, ZeroDivisionError, ValueError):
                 continue
